@@ -198,12 +198,34 @@ def gen_reset_case(rng, n):
             "fsched": rng.choice([[NOCAP * 1000], [1, NOCAP * 1000]])}
 
 
+def srv_norm(name):
+    """cmds/recv.c normalize_dirname (prediction of the directory a client's data ends up in)"""
+    absolute = name.startswith(b"/")
+    stack = []
+    for c in name.split(b"/"):
+        if c in (b"", b"."):
+            continue
+        if c == b".." and stack and stack[-1] != b"..":
+            stack.pop()
+        else:
+            stack.append(c)
+    body = b"/".join(stack)
+    return b"/" + body if absolute else (body or b".")
+
+
+def spell(rng, name):
+    """another spelling of the same directory"""
+    return rng.choice([b"./" + name, name + b"/", name + b"//", b"./" + name + b"/", b"x/../" + name,
+                       b"./x/./../" + name, b".//" + name, b"a/b/../../" + name])
+
+
 def srv_in_use(cand, live):
     return any(d == cand or d == cand + b".old" for d in live)
 
 
 def srv_pick(name, live):
     """recv_trace_dir_name: NAME, NAME.1, NAME.2, ... - the first one no connected client is using"""
+    name = srv_norm(name)
     i, cand = 0, name
     while srv_in_use(cand, live):
         i += 1
@@ -217,9 +239,13 @@ def gen_overlap_case(rng, n):
     now and then.  Order enforced through the harness: A's name and first buffers are handled, then B connects
     and sends everything, then A sends the rest."""
     base = rng.choice([b"uftrace.data", b"x", b"trace.dir"])
-    kind = rng.choice(["same", "same", "A.old", "B.old"])
-    na, nb = {"same": (base, base), "A.old": (base + b".old", base), "B.old": (base, base + b".old")}[kind]
+    kind = rng.choice(["same", "alias", "alias", "A.old", "B.old", "alias+old"])
+    na, nb = {"same": (base, base), "A.old": (base + b".old", base), "B.old": (base, base + b".old"),
+              "alias": (base, spell(rng, base)), "alias+old": (rng.choice([b"./", b"x/../", b".//"]) + base + b".old", spell(rng, base))}[kind]
+    if kind == "alias" and rng.random() < 0.5:
+        na, nb = nb, na
     a = gen_client(rng, 0, na)
+    a["where"] = srv_norm(na)
     b = gen_client(rng, 1, nb)
     a["ops"] = [op for op in a["ops"] if op[0] != "sleep"]
     cut = rng.randrange(0, len([op for op in a["ops"] if op[0] in ("data", "kernel", "perf")]) + 1)
@@ -227,7 +253,7 @@ def gen_overlap_case(rng, n):
     a["split"] = 1 + len(body_msgs({"ops": a["ops"][:cut], "files": a["files"]}))
     b["pre_ops"] = [("wait", "fa")]
     b["ops"] = b["ops"] + [("post", "fb")]
-    b["where"] = srv_pick(nb, [na])
+    b["where"] = srv_pick(nb, [srv_norm(na)])
     phase = [a, b]
     if rng.random() < 0.3:
         phase.append(gen_client(rng, 2, b"other.data"))
@@ -260,11 +286,57 @@ def add_sized_files(rng, c, sizes):
     c["lsched"] = [1 << 20]
 
 
+def gen_vanish_case(rng, n):
+    """a client V that goes away WITHOUT SEND_END (its connection is closed cleanly after its directory name and
+    some data: the server reads end-of-file where the next message should start) while an ordinary client A is in
+    the middle of its recording: A's directory must still equal its local recording, V's holds what V sent"""
+    a = gen_client(rng, 0, rng.choice([b"a.data", b"uftrace.data"]))
+    v = gen_client(rng, 1, rng.choice([b"gone.data", b"v"]))
+    a["ops"] = [op for op in a["ops"] if op[0] != "sleep"]
+    cut = rng.randrange(0, len([op for op in a["ops"] if op[0] in ("data", "kernel", "perf")]) + 1)
+    a["ops"] = a["ops"][:cut] + [("post", "fa"), ("wait", "fv"), ("sleep", 30000)] + a["ops"][cut:]
+    a["split"] = 1 + len(body_msgs({"ops": a["ops"][:cut], "files": a["files"]}))
+    vcut = rng.choice([0, 0, 1, 2, len(v["ops"])])
+    v["ops"] = [op for op in v["ops"][:vcut] if op[0] != "sleep"] + [("post", "fv")]
+    sent = set(m[1] for m in body_msgs(v) if m[0] == "meta") | ({b"info"} if ("info",) in v["ops"] else set())
+    v["files"] = {nm: val for nm, val in v["files"].items() if nm in sent}
+    v["pre_ops"] = [("wait", "fa")]
+    v["no_end"] = True
+    return {"n": n, "big": False, "vanish": True, "phases": [[a, v]], "rsched": gen_rsched(rng), "fsched": [NOCAP * 1000]}
+
+
+def gen_threads_case(rng, n):
+    """one recorder whose 2-4 WRITER THREADS send the buffers of different tasks through the one socket at the same
+    time (cmds/record.c writer_thread): short write counts make a thread pause in the middle of a message, the
+    server reads slowly; a second ordinary client now and then"""
+    c = gen_client(rng, 0, rng.choice([b"mt.data", b"uftrace.data"]))
+    fin = [op for op in c["ops"] if op[0] in ("taskfile", "mapfiles", "symfiles", "dbgfiles", "info", "meta")]
+    nth = rng.choice([2, 3, 4])
+    blocks = []
+    for t in range(nth):
+        tids = [1000 * (t + 1) + j for j in range(rng.choice([1, 2]))]
+        for _ in range(rng.randrange(2, 5)):
+            blocks.append(("tdata", rng.choice(tids), rbytes(rng, rng.choice([0, 8, 16, 40, 100])), t))
+    rng.shuffle(blocks)          # (order within a thread = order in this list)
+    c["ops"] = blocks + fin
+    c["wsched"] = rng.choice([[8, NOCAP], [8, 4, NOCAP], [12, NOCAP], [7, 9], [3, 0, -1, 8, 1, 100], [1, 20, NOCAP], [5, 5, 5, NOCAP]])
+    c["lsched"] = [NOCAP]
+    c["rdelay"] = rng.choice([0, 100, 300])
+    phase = [c]
+    if rng.random() < 0.3:
+        phase.append(gen_client(rng, 1, b"other.data"))
+    return {"n": n, "big": False, "threads": nth, "phases": [phase], "rsched": gen_rsched(rng),
+            "fsched": [NOCAP * 1000]}
+
+
 def gen_case(rng, n, big=False, reuse=False, metasizes=None):
     """a case: phases (harness runs over the same server directory), each with 1-4 concurrent clients"""
     k = 1 if big else rng.choice([1, 1, 2, 2, 3, 4])
     names = rng.sample([b"a.data", b"b.data", b"uftrace.data", b"x", b"trace.dir", b"n1", b"n2"], k)
     phase = [gen_client(rng, i, names[i], big) for i in range(k)]
+    for c in phase:
+        if rng.random() < 0.25:          # another spelling of the directory name: same directory on the server
+            c["dir"] = spell(rng, c["dir"])
     phases = [phase]
     if reuse:       # a later client re-uses a directory name after the first one finished: rotation
         c2 = gen_client(rng, 0, names[0])
@@ -283,6 +355,8 @@ def hx(b):
 
 def write_casefile(path, srv, clients, rsched, fsched, root):
     L = ["srvdir %s" % srv, "rsched %s" % " ".join(map(str, rsched)), "fsched %s" % " ".join(map(str, fsched))]
+    if any(c.get("rdelay") for c in clients):
+        L.append("rdelay %d" % max(c.get("rdelay", 0) for c in clients))
     for c in clients:
         loc = os.path.join(root, "loc%d" % c["idx"])
         cap = os.path.join(root, "cap%d" % c["idx"])
@@ -306,6 +380,8 @@ def write_casefile(path, srv, clients, rsched, fsched, root):
         for op in c["ops"]:
             if op[0] in ("data", "kernel", "perf"):
                 L.append("op %s %d %s" % (op[0], op[1], hx(op[2])))
+            elif op[0] == "tdata":
+                L.append("op tdata %d %d %s" % (op[3], op[1], hx(op[2])))
             elif op[0] == "bigdata":
                 L.append("op bigdata %d %d %d" % (op[1], op[2], op[3]))
             elif op[0] == "meta":
@@ -344,6 +420,8 @@ def body_msgs(c):
         k = op[0]
         if k in ("data", "kernel", "perf"):
             ms.append((k, op[1], op[2]))
+        elif k == "tdata":
+            ms.append(("data", op[1], op[2]))
         elif k == "meta":
             ms.append(("meta", op[1], f[op[1]]))
         elif k == "taskfile":
@@ -402,16 +480,17 @@ def expand(sched, n):
 def client_term(c, rsched, sock):
     ops = c["ops"]
     finish = [("taskfile",), ("mapfiles",), ("symfiles",), ("dbgfiles",), ("info",)]
-    ndata = len([op for op in ops if op[0] in ("data", "kernel", "perf")])
-    if not c.get("abort") and [op for op in ops if op[0] not in ("data", "kernel", "perf", "sleep", "post", "wait")] == finish:
+    ndata = len([op for op in ops if op[0] in ("data", "kernel", "perf", "tdata")])
+    if not c.get("abort") and not c.get("no_end") and [op for op in ops if op[0] not in ("data", "kernel", "perf", "tdata", "sleep", "post", "wait")] == finish:
         files = "Some (%s)" % cdir({n: v for n, v in c["files"].items() if n != b"events.txt"})
     else:
         files = "None"
     return ("{| cc_sock := %d; cc_dir := %s; cc_where := %s; cc_body := [%s]; cc_ndata := %d; cc_files := %s; "
-            "cc_abort := %s; cc_split := %d; cc_wsched := [%s]%%Z; "
+            "cc_abort := %s; cc_eof := %s; cc_threads := %s; cc_split := %d; cc_wsched := [%s]%%Z; "
             "cc_rsched := [%s]%%nat; cc_wire := %s; cc_local := %s; cc_recv := %s |}" % (
                 sock, cb(c["dir"]), cb(c["where"]), "; ".join(cmsg(m) for m in body_msgs(c)), ndata, files,
-                coq.coq_bool(bool(c.get("abort"))), c.get("split", 1000000),
+                coq.coq_bool(bool(c.get("abort"))), coq.coq_bool(bool(c.get("no_end"))),
+                coq.coq_bool(any(op[0] == "tdata" for op in ops)), c.get("split", 1000000),
                 "; ".join(coq.zlit(v) for v in expand(c["wsched"], c["wcalls"])),
                 "; ".join(str(v) for v in rsched), cb(c["wire"]), cdir(c["local"] or {}), codir(c["recv"])))
 
@@ -495,11 +574,12 @@ def jcase(case):
              "filespec": c.get("filespec", {}),
              "ops": [[(x.hex() if isinstance(x, (bytes, bytearray)) else x) for x in op] for op in c["ops"]],
              "idx": c["idx"]}
-        for k in ("raw", "no_end", "abort", "after", "split", "pre_ops"):
+        for k in ("raw", "no_end", "abort", "after", "split", "pre_ops", "rdelay"):
             if k in c:
                 o[k] = [r.hex() for r in c[k]] if k == "raw" else c[k]
         return o
     return {"big": case["big"], "rsched": case["rsched"], "fsched": case["fsched"], "overlap": case.get("overlap"),
+            "threads": case.get("threads"), "vanish": case.get("vanish"),
             "phases": [[jc(c) for c in ph] for ph in case["phases"]]}
 
 
@@ -510,6 +590,8 @@ def unjcase(j):
             k = op[0]
             if k in ("data", "kernel", "perf"):
                 ops.append((k, op[1], bytes.fromhex(op[2])))
+            elif k == "tdata":
+                ops.append((k, op[1], bytes.fromhex(op[2]), op[3]))
             elif k == "meta":
                 ops.append((k, bytes.fromhex(op[1])))
             else:
@@ -522,13 +604,14 @@ def unjcase(j):
         c["filespec"] = o.get("filespec", {})
         if "raw" in o:
             c["raw"] = [bytes.fromhex(r) for r in o["raw"]]
-        for k in ("no_end", "abort", "after", "split"):
+        for k in ("no_end", "abort", "after", "split", "rdelay"):
             if k in o:
                 c[k] = o[k]
         if "pre_ops" in o:
             c["pre_ops"] = [tuple(x) for x in o["pre_ops"]]
         return c
     return {"n": 0, "big": j["big"], "rsched": j["rsched"], "fsched": j["fsched"], "overlap": j.get("overlap"),
+            "threads": j.get("threads"), "vanish": j.get("vanish"),
             "phases": [[uc(c) for c in ph] for ph in j["phases"]]}
 
 
@@ -575,6 +658,14 @@ def case_tags(case):
         t.append("dirname-reused-sequentially")
     if case.get("overlap"):
         t.append("concurrent-clashing-names:" + case["overlap"])
+    if case.get("threads"):
+        t.append("writer-threads=%d" % case["threads"])
+    if case.get("vanish"):
+        t.append("client-vanishes-without-END")
+    for ph in case["phases"]:
+        for c in ph:
+            if c["dir"] != srv_norm(c["dir"]):
+                t.append("directory-name-alias")
     for ph in case["phases"]:
         for c in ph:
             for n, (sz, seed) in c.get("filespec", {}).items():
@@ -591,7 +682,7 @@ def case_tags(case):
 
 
 def case_size(case):
-    return sum(len(op[2]) if op[0] in ("data", "kernel", "perf") else (op[2] if op[0] == "bigdata" else 0)
+    return sum(len(op[2]) if op[0] in ("data", "kernel", "perf", "tdata") else (op[2] if op[0] == "bigdata" else 0)
                for ph in case["phases"] for c in ph for op in c["ops"])
 
 
@@ -701,20 +792,26 @@ def free_port():
 class Relay:
     """TCP relay that re-segments every connection's byte stream (chunk sizes from a seeded rng)"""
 
-    def __init__(self, seed, dport, slow=0.0, small_first=3000):
+    def __init__(self, seed, dport, slow=0.0, small_first=3000, rcvbuf=0, pieces=None):
+        """slow: seconds to sleep after every piece; rcvbuf: SO_RCVBUF of the accepted connections (a small one makes
+        the sender's socket buffer fill up: back-pressure); pieces: sizes to forward in (default: 1 B .. 64 KiB)"""
         import random
         self.rng = random.Random(seed)
         self.dport = dport
         self.slow = slow
         self.small_first = small_first
+        self.pieces = pieces or [1, 7, 8, 9, 12, 100, 1460, 4096, 65536, 65536, 65536]
         self.ls = socket.socket()
         self.ls.setsockopt(socket.SOL_SOCKET, socket.SO_REUSEADDR, 1)
+        if rcvbuf:
+            self.ls.setsockopt(socket.SOL_SOCKET, socket.SO_RCVBUF, rcvbuf)
         self.ls.bind(("127.0.0.1", 0))
         self.ls.listen(16)
         self.port = self.ls.getsockname()[1]
         self.stop = False
         self.chunks = {}
         self.nconn = 0
+        self.handlers = []
         self.th = threading.Thread(target=self.loop, daemon=True)
         self.th.start()
 
@@ -729,7 +826,9 @@ class Relay:
                 return
             self.nconn += 1
             import random
-            threading.Thread(target=self.handle, args=(c, random.Random(self.rng.randrange(1 << 30))), daemon=True).start()
+            t = threading.Thread(target=self.handle, args=(c, random.Random(self.rng.randrange(1 << 30))), daemon=True)
+            self.handlers.append(t)
+            t.start()
 
     def handle(self, c, rng):
         try:
@@ -740,7 +839,7 @@ class Relay:
                 if sent < self.small_first:
                     n = rng.choice([1, 1, 2, 3, 4, 5, 7, 8, 9, 11, 12, 13])
                 else:
-                    n = rng.choice([1, 7, 8, 9, 12, 100, 1460, 4096, 65536, 65536, 65536])
+                    n = rng.choice(self.pieces)
                 self.chunks[n] = self.chunks.get(n, 0) + 1
                 b = c.recv(n)
                 if not b:
@@ -756,6 +855,12 @@ class Relay:
             pass
         finally:
             c.close()
+
+    def drain(self, timeout=60):
+        """wait until everything the clients sent has been forwarded (a slow relay is still busy when record exits)"""
+        t0 = time.time()
+        for t in list(self.handlers):
+            t.join(max(0.1, timeout - (time.time() - t0)))
 
     def close(self):
         self.stop = True
@@ -994,6 +1099,7 @@ def e2e_round(ctx, objdir, progs, rnd, spec):
                 p.kill()
                 o, _ = p.communicate()
             rcs.append((p.returncode, o.decode(errors="replace")[-300:]))
+        relay.drain()
         time.sleep(0.3)
         recv_died = srv.poll() is not None
     finally:
@@ -1148,8 +1254,9 @@ def e2e_same_name(ctx, objdir, progs, spec):
             if rc != 0:
                 ctx.broken("e2e-same-name: local uftrace record failed rc=%d: %s" % (rc, (o + e)[-300:]))
         for name, prog in runs:
+            dname = "uftrace.data" if name == "A" or not spec.get("alias") else spec["alias"]
             procs.append(subprocess.Popen(
-                record_cmd(uft, objdir, ["--host", "127.0.0.1", "--port", str(relay.port)], "uftrace.data", prog),
+                record_cmd(uft, objdir, ["--host", "127.0.0.1", "--port", str(relay.port)], dname, prog),
                 cwd=os.path.join(root, name), stdout=subprocess.PIPE, stderr=subprocess.STDOUT))
             time.sleep(0.5)         # A (1.2 s) is still running when B starts and finishes
         rcs = []
@@ -1160,6 +1267,7 @@ def e2e_same_name(ctx, objdir, progs, spec):
                 p.kill()
                 o, _ = p.communicate()
             rcs.append((p.returncode, o.decode(errors="replace")[-300:]))
+        relay.drain()
         time.sleep(0.3)
         recv_died = srv.poll() is not None
     finally:
@@ -1176,7 +1284,7 @@ def e2e_same_name(ctx, objdir, progs, spec):
                 "net_files": sorted(x.decode() for x in (net or {})) if net is not None else None}
         results.append((digest_dir(loc) or {}, digest_dir(net), meta))
         ctx.case(key=("e2e-same-name", name, json.dumps(spec, sort_keys=True)),
-                 tags=["e2e:concurrent-clients-same-default-dirname"], size=sum(v[0] for v in (digest_dir(net) or {}).values()))
+                 tags=["e2e:concurrent-clients-same-default-dirname" + (":alias-spelling" if spec.get("alias") else "")], size=sum(v[0] for v in (digest_dir(net) or {}).values()))
         if rc[0] != 0 or recv_died:
             ctx.violation("C16 e2e: two concurrent `record --host` with the same directory name: record rc=%s, recv %s"
                           % (rc[0], "exited" if recv_died else "alive"), {"mode": "e2e-same-name", "case": meta}, True)
@@ -1189,6 +1297,118 @@ def e2e_same_name(ctx, objdir, progs, spec):
                       "differs from the local recording of client %s (files: %s; directories on the server: %s)"
                       % (meta["expected_directory"], meta["client"], ", ".join(diff), meta["server_directories"]),
                       {"mode": "e2e-same-name", "case": meta, "differing": diff}, True)
+
+
+def e2e_backpressure(ctx, objdir, progs, spec):
+    """SEVERAL WRITER THREADS, ONE SOCKET: a multi-threaded program (8 threads filling buffers at the same time) recorded
+    with the DEFAULT number of writer threads (ncpu/4, computed by record after the socket is set up) - or an explicit
+    one - through a throttling relay (small receive buffer, pieces of 1-8 KiB, a delay after each): the writers block
+    in the middle of messages.  The messages must still arrive whole: received directory == local recording and
+    `uftrace recv` survives."""
+    uft = os.path.join(objdir, "uftrace")
+    root = os.path.join(ctx.scratch, "e2e-bp")
+    shutil.rmtree(root, ignore_errors=True)
+    os.makedirs(root)
+    prog = [progs["mt"], str(spec["threads"]), str(spec["calls"])]
+    extra = ["--num-thread=%d" % spec["num_thread"]] if spec.get("num_thread") else []
+    rc, o, e = sh(record_cmd(uft, objdir, extra, "local.data", prog), cwd=root, timeout=90)
+    if rc != 0:
+        ctx.broken("e2e-backpressure: local uftrace record failed rc=%d: %s" % (rc, (o + e)[-300:]))
+    srv, port = start_recv(uft, os.path.join(root, "srv"))
+    relay = Relay(spec["relay_seed"], port, slow=spec["delay"], small_first=0, rcvbuf=8192, pieces=[1024, 2048, 4096, 8192])
+    try:
+        rc2, o2, e2 = sh(record_cmd(uft, objdir, extra + ["--host", "127.0.0.1", "--port", str(relay.port)], "net.data", prog),
+                         cwd=root, timeout=90)
+        relay.drain()
+        time.sleep(0.5)
+        recv_died = srv.poll() is not None
+    finally:
+        relay.close()
+        srvout = stop_proc(srv)
+    loc = norm_dir(uft, objdir, os.path.join(root, "local.data"), sort_replay=True)
+    net = norm_dir(uft, objdir, os.path.join(root, "srv", "net.data"), sort_replay=True)
+    meta = {"scenario": "multi-threaded program, %s writer threads, throttling relay (SO_RCVBUF 8 KiB, 1-8 KiB pieces, %g s delay)"
+                        % (spec.get("num_thread") or "DEFAULT number of", spec["delay"]),
+            "spec": spec, "record_rc": rc2, "record_out": (o2 + e2)[-300:], "recv_died": recv_died, "recv_output": srvout[-300:],
+            "local_files": sorted(x.decode() for x in (loc or {})),
+            "net_files": sorted(x.decode() for x in (net or {})) if net is not None else None}
+    shutil.rmtree(root, ignore_errors=True)
+    ctx.case(key=("e2e-backpressure", json.dumps(spec, sort_keys=True)),
+             tags=["e2e:writer-threads=%s" % (spec.get("num_thread") or "default"), "e2e:back-pressure(relay rcvbuf 8K, 1-8K pieces)"],
+             size=sum(v[0] for v in (digest_dir(net) or {}).values()))
+    bad = evaluate_dig(ctx, [(digest_dir(loc) or {}, digest_dir(net))], "e2e_bp")
+    if bad or recv_died or rc2 != 0:
+        a, b = digest_dir(loc) or {}, digest_dir(net) or {}
+        diff = sorted(n.decode() for n in set(a) | set(b) if b.get(n) != a.get(n))
+        ctx.violation("C16 violated end-to-end: several writer threads on one socket under back-pressure: record rc=%s, `uftrace "
+                      "recv` %s, received directory %s (files: %s)" % (
+                          rc2, "EXITED: " + srvout[-120:].strip() if recv_died else "alive",
+                          "differs from the local recording" if bad else "equal", ", ".join(diff)),
+                      {"mode": "e2e-backpressure", "case": meta, "differing": diff}, True)
+    return meta
+
+
+def e2e_vanish(ctx, objdir, progs, spec):
+    """clients that DISAPPEAR while others record: a `uftrace record --host` is killed (SIGKILL) in the middle of its
+    run and a connection is opened and closed without a byte (a port scan) while client B records; client C records
+    afterwards.  `uftrace recv` must keep running and the directories of B and C must equal their local recordings."""
+    uft = os.path.join(objdir, "uftrace")
+    root = os.path.join(ctx.scratch, "e2e-vanish")
+    shutil.rmtree(root, ignore_errors=True)
+    os.makedirs(root)
+    pw = os.path.join(os.path.dirname(progs["single"]), "pw")
+    good = [("B", [progs["single"], str(spec["n"])]), ("C", [progs["single"], "3"])]
+    for name, prog in good:
+        os.makedirs(os.path.join(root, name))
+        rc, o, e = sh(record_cmd(uft, objdir, [], "local.data", prog), cwd=os.path.join(root, name), timeout=60)
+        if rc != 0:
+            ctx.broken("e2e-vanish: local uftrace record failed rc=%d: %s" % (rc, (o + e)[-300:]))
+    os.makedirs(os.path.join(root, "K"))
+    srv, port = start_recv(uft, os.path.join(root, "srv"))
+    relay = Relay(spec["relay_seed"], port)
+    rcs = {}
+    try:
+        net = ["--host", "127.0.0.1", "--port", str(relay.port)]
+        victim = subprocess.Popen(record_cmd(uft, objdir, net, "killed.data", [pw]), cwd=os.path.join(root, "K"),
+                                  stdout=subprocess.PIPE, stderr=subprocess.STDOUT, start_new_session=True)
+        time.sleep(0.4)
+        b = subprocess.Popen(record_cmd(uft, objdir, net, "netB.data", good[0][1]), cwd=os.path.join(root, "B"),
+                             stdout=subprocess.PIPE, stderr=subprocess.STDOUT)
+        os.killpg(victim.pid, signal.SIGKILL)            # record (and its tracee) die without SEND_END
+        victim.wait()
+        c = socket.create_connection(("127.0.0.1", port))   # connect, say nothing, go away
+        c.close()
+        ob, _ = b.communicate(timeout=60)
+        rcs["B"] = (b.returncode, ob.decode(errors="replace")[-300:])
+        rc, o, e = sh(record_cmd(uft, objdir, net, "netC.data", good[1][1]), cwd=os.path.join(root, "C"), timeout=60)
+        rcs["C"] = (rc, (o + e)[-300:])
+        relay.drain()
+        time.sleep(0.3)
+        recv_died = srv.poll() is not None
+    finally:
+        relay.close()
+        srvout = stop_proc(srv)
+    results = []
+    for name, prog in good:
+        loc = norm_dir(uft, objdir, os.path.join(root, name, "local.data"))
+        netd = norm_dir(uft, objdir, os.path.join(root, "srv", "net%s.data" % name))
+        meta = {"scenario": "a record --host is killed and a connection is closed without a byte while B records; C records afterwards",
+                "client": name, "record_rc": rcs[name][0], "record_out": rcs[name][1], "recv_died": recv_died,
+                "recv_output": srvout[-300:], "spec": spec,
+                "net_files": sorted(x.decode() for x in (netd or {})) if netd is not None else None}
+        results.append((digest_dir(loc) or {}, digest_dir(netd), meta))
+        ctx.case(key=("e2e-vanish", name, json.dumps(spec, sort_keys=True)), tags=["e2e:client-killed-without-END", "e2e:connect-and-close"],
+                 size=sum(v[0] for v in (digest_dir(netd) or {}).values()))
+    shutil.rmtree(root, ignore_errors=True)
+    bad = evaluate_dig(ctx, [(a, b2) for a, b2, _ in results], "e2e_vanish")
+    for i, (a, b2, meta) in enumerate(results):
+        if i in (bad or []) or meta["record_rc"] != 0 or recv_died:
+            diff = sorted(n.decode() for n in set(a) | set(b2 or {}) if (b2 or {}).get(n) != a.get(n))
+            ctx.violation("C16 violated end-to-end: another client disappeared without SEND_END: client %s: record rc=%s, `uftrace "
+                          "recv` %s, received directory %s (files: %s)" % (
+                              meta["client"], meta["record_rc"], "EXITED: " + srvout[-100:].strip() if recv_died else "alive",
+                              "differs from the local recording" if i in (bad or []) else "equal", ", ".join(diff)),
+                          {"mode": "e2e-vanish", "case": meta, "differing": diff}, True)
 
 
 def e2e_verdict(ctx, results):
@@ -1291,8 +1511,15 @@ def e2e(ctx, objdir):
         spec = {"relay_seed": ctx.rng.randrange(1 << 30), "runs": runs, "stagger": ctx.rng.choice([0.0, 0.0, 0.02])}
         results += e2e_round(ctx, objdir, progs, rnd, spec)
     e2e_verdict(ctx, results)
+    for i in range(ctx.n(1, 4)):
+        e2e_backpressure(ctx, objdir, progs, {"relay_seed": ctx.rng.randrange(1 << 30), "threads": 8,
+                                               "calls": ctx.rng.choice([15000, 30000]), "delay": ctx.rng.choice([0.0002, 0.0005]),
+                                               "num_thread": [0, 0, 2, 4][i % 4]})
     for _ in range(ctx.n(1, 3)):
-        e2e_same_name(ctx, objdir, progs, {"relay_seed": ctx.rng.randrange(1 << 30), "n": ctx.rng.choice([1, 3, 50])})
+        e2e_same_name(ctx, objdir, progs, {"relay_seed": ctx.rng.randrange(1 << 30), "n": ctx.rng.choice([1, 3, 50]),
+                                            "alias": ctx.rng.choice([None, "./uftrace.data", "uftrace.data/", "./uftrace.data//"])})
+    for _ in range(ctx.n(1, 3)):
+        e2e_vanish(ctx, objdir, progs, {"relay_seed": ctx.rng.randrange(1 << 30), "n": ctx.rng.choice([1, 3, 50])})
     for _ in range(ctx.n(1, 4)):
         e2e_reset(ctx, objdir, progs, {"relay_seed": ctx.rng.randrange(1 << 30), "n": ctx.rng.choice([1, 3, 50]),
                                         "tid": ctx.rng.choice([7, 4242]), "with_meta": ctx.rng.random() < 0.5,
@@ -1353,11 +1580,7 @@ def witnesses(ctx, objdir, exe):
     except Exception as ex:          # a witness must never break the check
         mixed, o2 = False, {"error": repr(ex)}
     obs[KEY_SAMEDIR] = {"reproduced": mixed, "observation": o2}
-    try:
-        fails, o1 = witness_shared_socket(ctx, objdir)
-    except Exception as ex:
-        fails, o1 = False, {"error": repr(ex)}
-    obs[KEY_RACE] = {"reproduced": fails, "observation": o1}
+    # (the shared-socket witness became the regular scenario e2e_backpressure)
     texts = {
         KEY_SAMEDIR: "two clients connected at once that use the same directory name (e.g. the default uftrace.data) "
                      "have their files mixed in one directory (cmds/recv.c recv_trace_dir_name)",
@@ -1396,7 +1619,8 @@ def common_meta(ctx):
                 "two `record --host` at once with the default name, and a byte-for-byte comparison of the metadata files "
                 "the recorder had in its own directory (hard-linked while it runs) with what the receiver stored; metadata "
                 "files of 0 / k*4 KiB / k*64 KiB / k*64 KiB+-1 bytes (in-process, all of META_SIZES per run) and a program "
-                "whose .sym file has exactly 64 KiB (e2e)")
+                "whose .sym file has exactly 64 KiB (e2e); every 10th in-process case: 2-4 writer threads on the one socket; "
+                "e2e: an 8-thread program with the default --num-thread through a throttling relay")
     ctx.trusted = [
         "Coq 8.16.1 kernel incl. vm_compute; no axioms (Print Assumptions: closed under the global context)",
         "hand-written model coq/theories/C16/Model.v of utils/utils.c read_all/write_all/writev_all, cmds/recv.c "
@@ -1412,13 +1636,15 @@ def common_meta(ctx):
         "mutex since fix c9aa763; the unlocked code is C16_shared_socket_refuted)",
         "the server's create_directory works on directories made by recv itself; a directory that cannot be rotated "
         "(foreign content, bad info magic) is appended to as it is (the 'base' of C16_no_mixing)",
-        "every client ends with SEND_END; a client that disconnects inside or between messages makes `uftrace recv` "
-        "exit (modelled: the server dies; proved: C16_read_all_short_stream); a connection that is RESET "
+        "a client that disconnects inside or between messages is dropped alone (fix c26107f; the code as found exited: "
+        "lost false = Died); protocol violations (bad magic, data before a directory name, impossible lengths) still make "
+        "`uftrace recv` exit - modelled as death; a connection that is RESET "
         "(EPOLLERR/EPOLLHUP branch of handle_client_sock) is modelled as removal of the client entry (WHup) and "
         "exercised in-process (peer close of the socketpair, successor accepted on the same descriptor number) and "
         "end-to-end (SO_LINGER 0 / RST); the in-process reset happens after the server has read all that was sent",
-        "message length fields < 2^31 (receiver passes them as int); file and directory names without NUL and '/', "
-        "shorter than PATH_MAX; the receiver's directory contains only directories made by recv itself",
+        "message length fields < 2^31 (receiver passes them as int); file names without NUL and '/', directory names "
+        "that normalise (fix 8baf9e8: lexically - symbolic links inside the receive directory are not considered) to a "
+        "single component, all shorter than PATH_MAX; the receiver's directory contains only directories made by recv itself",
         "default.opts is not part of the comparison (the receiver creates its own, the property lists trace, task, "
         "map, symbol and info contents)",
         "e2e comparison is between two runs of a deterministic program: timestamps, pids, session ids and the info "
@@ -1446,7 +1672,7 @@ def verdict_small(ctx, cases, res, what):
 def run_small(ctx, exe, cases, name):
     for case in cases:
         run_case(exe, case, os.path.join(ctx.scratch, "ip"))
-        nontriv = any(op[0] in ("data", "kernel", "perf") and len(op[2]) > 0 for ph in case["phases"] for c in ph for op in c["ops"]) \
+        nontriv = any(op[0] in ("data", "kernel", "perf", "tdata") and len(op[2]) > 0 for ph in case["phases"] for c in ph for op in c["ops"]) \
             or any(len(v) > 0 for ph in case["phases"] for c in ph for v in c["files"].values())
         j = jcase(case)
         ctx.case(key=json.dumps(j, sort_keys=True), nontrivial=nontriv, tags=case_tags(case), size=case_size(case),
@@ -1489,8 +1715,9 @@ def run(ctx):
     objdir, exe = setup(ctx)
     rng = ctx.rng
     # 1. small in-process cases, full model comparison
-    nsmall = ctx.n(100, 2000)
+    nsmall = ctx.n(100, 1600)
     cases = [gen_reset_case(rng, i) if i % 10 == 7 else gen_overlap_case(rng, i) if i % 10 == 3 else
+             gen_threads_case(rng, i) if i % 10 == 1 else gen_vanish_case(rng, i) if i % 10 == 9 else
              gen_case(rng, i, reuse=(i % 9 == 4)) for i in range(nsmall)]
     # metadata files of exactly 64 KiB (thorough: also the neighbours) with the full model comparison
     for i, sz in enumerate(ctx.n([65536], [65536, 65535, 65537, 131072, 4096, 196608])):
@@ -1549,6 +1776,10 @@ def replay(ctx, obj):
         res = e2e_round(ctx, objdir, e2e_progs(ctx, objdir), 0, obj["case"]["spec"])
         e2e_verdict(ctx, res)
         ctx.log("replayed e2e round:", json.dumps([m for _, _, m in res])[:1500])
+    elif mode == "e2e-backpressure":
+        e2e_backpressure(ctx, objdir, e2e_progs(ctx, objdir), obj["case"]["spec"])
+    elif mode == "e2e-vanish":
+        e2e_vanish(ctx, objdir, e2e_progs(ctx, objdir), obj["case"]["spec"])
     elif mode == "e2e-same-name":
         e2e_same_name(ctx, objdir, e2e_progs(ctx, objdir), obj["case"]["spec"])
     elif mode == "e2e-reset":
